@@ -67,6 +67,10 @@ enum Tpl {
     T_E_RESURRECT,      // a destructor stores 'this' in a static field; the field is used afterwards (defect D24)
     T_E_GENERIC_BASE_ORDER,  // class derived from a generic instantiation whose template's base is declared last (defect D25)
     T_E_LONG_CHAIN,     // a list of about ten thousand nodes built in a loop and dropped (defect D26) - rare, it costs seconds
+    T_QTEMP,            // a qubit-owning object that only a pending argument owns holds the only reference to a plain object
+    T_E_EMPTY_ARRAY,    // reads from zero-length arrays
+    T_E_SHARED_QUBIT,   // two objects hold the same qubit in a field and both are destroyed
+    T_E_SIBLING,        // a base-typed variable re-assigned to a sibling subclass, then a virtual call
     T_E_RECURSE,        // bounded recursion holding an object (with destructor) per frame, optionally failing at the bottom
     T_COUNT
 };
@@ -76,7 +80,7 @@ inline const char* tplName(int t) {
                               "static_assign", "loop_alloc", "destroy", "cycle_drop", "virtual", "box", "ret_while_dtor", "churn", "churn_d",
                               "self_cycle_live", "show_all", "static_cycle", "drop_var", "keep_chain", "diamond_generic", "method_churn",
                               "e_div0", "e_mod0", "e_longmin_mod", "e_index", "e_null_field", "e_null_call", "e_deep", "e_voverload", "e_ctor_err",
-                              "e_fieldinit_err", "e_int_extreme", "e_literal_range", "e_cast", "e_neg_array", "e_destroy_twice", "e_super_call", "e_dtor_err", "qubit_owner_in_garbage_cycle", "e_generic_static", "derived_without_own_reference_fields", "e_declared_before_base", "e_destructor_stores_this", "e_generic_base_declared_later", "e_long_chain", "e_recurse"};
+                              "e_fieldinit_err", "e_int_extreme", "e_literal_range", "e_cast", "e_neg_array", "e_destroy_twice", "e_super_call", "e_dtor_err", "qubit_owner_in_garbage_cycle", "e_generic_static", "derived_without_own_reference_fields", "e_declared_before_base", "e_destructor_stores_this", "e_generic_base_declared_later", "e_long_chain", "qubit_owner_as_pending_argument", "e_empty_array", "e_two_owners_of_one_qubit", "e_sibling_reassigned", "e_recurse"};
     return (t >= 0 && t < T_COUNT) ? n[t] : "?";
 }
 
@@ -127,6 +131,9 @@ inline std::string preamble(const Plan& p) {
         "    public int w;\n"
         "    public constructor(int id) -> L { super(id, F.churnMk(id + 1)); this.w = id; return this; }\n"
         "}\n"
+        "class QW { public qubit q; public N held; public constructor(N h) -> QW { this.held = h; return this; } }\n"
+        "function passQ(QW w, int k) -> int { return w.held.id + k; }\n"
+        "function passQ2(int k, QW w) -> int { return w.held.id + k; }\n"
         "class D {\n"
         "    public int k;\n"
         "    public constructor(int k) -> D { this.k = k; return this; }\n"
@@ -224,6 +231,10 @@ inline std::string preamble(const Plan& p) {
             "class OgG<T> extends OgA { public int g = 2; public constructor() -> OgG<T> { super(); return this; } }\n"
             "class OgA { public int a = 1; public int a2 = 10; public int a3 = 20; public constructor() -> OgA { return this; } }\n"
             "class LN { public int v; public LN next; public constructor(int v, LN n) -> LN { this.v = v; this.next = n; return this; } }\n"
+            "class QH { public qubit target; public int id; public constructor(qubit t, int id) -> QH { this.target = t; this.id = id; return this; } public destructor() -> void { echo(\"~QH \" + this.id); } }\n"
+            "class Shp { public constructor() -> Shp = default; public virtual function area() -> int { return 0; } }\n"
+            "class Rct extends Shp { public int w; public int h; public constructor(int w, int h) -> Rct { super(); this.w = w; this.h = h; return this; } public override function area() -> int { return w * h; } }\n"
+            "class Dt extends Shp { public constructor() -> Dt { super(); return this; } }\n"
             "class BadInit {\n"
             "    public N held = F.mk(56);\n"
             "    public int q = F.boom(3);\n"
@@ -337,6 +348,15 @@ inline std::string renderStmt(const Plan& p, const Stmt& st, int index) {
             std::string v = "ln" + I(index);
             return "    LN " + v + " = null;\n    for (int li" + I(index) + " = 0; li" + I(index) + " < " + I(9000 + 500 * (st.a % 5)) + "; li" + I(index) + " = li" + I(index) + " + 1) { " + v + " = new LN(li" + I(index) + ", " + v + "); }\n    echo(" + v + ".v);\n    " + v + " = null;\n    echo(\"chain dropped\");\n";
         }
+        case T_QTEMP: return st.b % 2 ? "    echo(passQ(new QW(mk(" + I(id) + ")), F.churn(" + I(k) + ")));\n" : "    echo(passQ2(F.churnD(" + I(k) + "), new QW(mk(" + I(id) + "))));\n";
+        case T_E_EMPTY_ARRAY: {
+            std::string v = "ea" + I(index);
+            if (st.a % 3 == 0) return "    final int en" + I(index) + " = 0;\n    int[en" + I(index) + "] " + v + ";\n    echo(" + v + ");\n    echo(" + v + "[0]);\n";
+            if (st.a % 3 == 1) return "    int[0] " + v + ";\n    int ei" + I(index) + " = " + I(st.b % 3) + ";\n    echo(" + v + "[ei" + I(index) + "]);\n";
+            return "    float[0] " + v + ";\n    " + v + "[0] = 1.5f;\n    echo(" + v + ");\n";
+        }
+        case T_E_SHARED_QUBIT: return "    { qubit sq" + I(index) + "; QH ha" + I(index) + " = new QH(sq" + I(index) + ", " + I(id) + "); QH hb" + I(index) + " = new QH(sq" + I(index) + ", " + I(id + 1) + "); echo(ha" + I(index) + ".id + hb" + I(index) + ".id); }\n    echo(\"owners gone\");\n";
+        case T_E_SIBLING: return "    Shp sh" + I(index) + " = new Rct(2, " + I(2 + st.a % 3) + ");\n    echo(sh" + I(index) + ".area());\n    sh" + I(index) + " = new Dt();\n    echo(sh" + I(index) + ".area());\n";
         case T_E_RECURSE: return "    echo(rec(" + I(3 + (st.a % 12) * 4) + ", " + I(st.b % 3 == 0 ? 1 : 0) + "));\n";
         case T_E_GENERIC_STATIC: {
             std::string ty = st.a % 2 ? "string" : "int";
@@ -387,9 +407,9 @@ inline Plan generate(sim::Rng& g, bool edge, bool allowDtorErr, bool allowQcycle
     int n = g.range(1, 9);
     static const int gcTpls[] = {T_ARG_BEFORE, T_ARG_AFTER, T_CTOR_ARG, T_SUPER_ARG, T_CHAIN, T_NESTED_RET, T_MEMBER_ASSIGN, T_EQ_OPERAND, T_CONCAT, T_STATIC_ASSIGN,
                                  T_LOOP_ALLOC, T_DESTROY, T_CYCLE_DROP, T_VIRTUAL, T_BOX, T_RET_WHILE_DTOR, T_CHURN, T_CHURN_D, T_SELF_CYCLE_LIVE, T_SHOW_ALL,
-                                 T_STATIC_CYCLE, T_DROP_VAR, T_KEEP_CHAIN, T_DIAMOND_GENERIC, T_METHOD_CHURN, T_DERIVED_LEAF};
+                                 T_STATIC_CYCLE, T_DROP_VAR, T_KEEP_CHAIN, T_DIAMOND_GENERIC, T_METHOD_CHURN, T_DERIVED_LEAF, T_QTEMP};
     static const int edgeTpls[] = {T_E_DIV0, T_E_MOD0, T_E_LONGMIN_MOD, T_E_INDEX, T_E_NULL_FIELD, T_E_NULL_CALL, T_E_DEEP, T_E_VOVERLOAD, T_E_CTOR_ERR, T_E_FIELDINIT_ERR,
-                                   T_E_INT_EXTREME, T_E_LITERAL_RANGE, T_E_CAST, T_E_NEG_ARRAY, T_E_DESTROY_TWICE, T_E_SUPER_CALL, T_E_GENERIC_STATIC, T_E_RECURSE, T_E_DECL_ORDER, T_E_RESURRECT, T_E_GENERIC_BASE_ORDER};
+                                   T_E_INT_EXTREME, T_E_LITERAL_RANGE, T_E_CAST, T_E_NEG_ARRAY, T_E_DESTROY_TWICE, T_E_SUPER_CALL, T_E_GENERIC_STATIC, T_E_RECURSE, T_E_DECL_ORDER, T_E_RESURRECT, T_E_GENERIC_BASE_ORDER, T_E_EMPTY_ARRAY, T_E_SHARED_QUBIT, T_E_SIBLING};
     double edgeShare = edge ? 0.35 : 0.0;
     for (int i = 0; i < n; ++i) {
         Stmt st;
